@@ -40,7 +40,8 @@ theorem reserve_n (M : Mem) (A : Arr) (r r1 : RArr) (h : Rep M A r) (size : Nat)
 theorem reserve_sim (M : Mem) (A : Arr) (r : RArr) (h : Rep M A r) (size fuel : Nat) (hf : r.n < fuel) :
     Sim M A (SeqArr.reserve fuel M A size) (Raw.reserve r size) := by
   obtain ⟨hcap, hrep⟩ := h
-  unfold SeqArr.reserve Raw.reserve
+  unfold SeqArr.reserve SeqArr.grow Raw.reserve
+  simp only [needGrow_iff]
   cases hc : r.cells with
   | none =>
     rw [hc] at hrep
@@ -125,10 +126,15 @@ theorem reserve2_out (M : Mem) (A : Arr) (r : RArr) (h : Rep M A r) (bv j : Nat)
       simp only [pge, plt, hb, he, Bool.and_eq_false_iff, Bool.not_eq_false', decide_eq_true_eq, decide_eq_false_iff_not]
       omega
   unfold SeqArr.reserve2
-  simp only [hc, Bool.false_eq_true, if_false]
-  cases SeqArr.reserve fuel M A size with
-  | none => rfl
-  | some t => rfl
+  first
+  | (simp only [hc, Bool.false_eq_true, if_false]
+     cases SeqArr.reserve fuel M A size <;> rfl)
+  | -- the shape with an early return when no storage is needed and a direct call of the growth helper
+    (unfold SeqArr.reserve
+     by_cases hg : needGrow A size = true
+     · simp only [hg, hc, Bool.not_true, Bool.false_eq_true, if_false, if_true]
+       cases SeqArr.grow fuel M A size <;> rfl
+     · simp [hg])
 
 /-- `reserve(size, &a[i])`: `reserve(size)`, then the pointer to element `i` of the (possibly new) storage -/
 theorem reserve2_in (M : Mem) (A : Arr) (r : RArr) (h : Rep M A r) (b i : Nat) (hb : A.begin = some (b, 0)) (hi : i < r.n)
@@ -146,13 +152,25 @@ theorem reserve2_in (M : Mem) (A : Arr) (r : RArr) (h : Rep M A r) (b i : Nat) (
     have hc : (pge (some (b0, i)) A.begin && plt (some (b0, i)) A.end_) = true := by
       simp [pge, plt, hb, he, hi]
     unfold SeqArr.reserve2
-    rw [if_pos hc]
-    simp only [hb, pdiff, and_self, Nat.zero_le, Nat.sub_zero, if_true]
-    cases SeqArr.reserve fuel M A size with
-    | none => rfl
-    | some t =>
-      simp only [Option.bind_some]
-      cases padd t.2.begin i <;> rfl
+    first
+    | (rw [if_pos hc]
+       simp only [hb, pdiff, and_self, Nat.zero_le, Nat.sub_zero, if_true]
+       cases SeqArr.reserve fuel M A size with
+       | none => rfl
+       | some t =>
+         simp only [Option.bind_some]
+         cases padd t.2.begin i <;> rfl)
+    | (unfold SeqArr.reserve
+       by_cases hg : needGrow A size = true
+       · simp only [hg, Bool.not_true, Bool.false_eq_true, if_false, if_true]
+         rw [if_pos hc]
+         simp only [hb, pdiff, and_self, Nat.zero_le, Nat.sub_zero, if_true]
+         cases SeqArr.grow fuel M A size with
+         | none => rfl
+         | some t =>
+           simp only [Option.bind_some]
+           cases padd t.2.begin i <;> rfl
+       · simp [hg, hb, padd])
 
 theorem reserve_cells_some (r r1 : RArr) (cs : Cells) (hc : r.cells = some cs) (size : Nat)
     (hr : Raw.reserve r size = some r1) : ∃ cs1, r1.cells = some cs1 := by
@@ -163,5 +181,22 @@ theorem reserve_cells_some (r r1 : RArr) (cs : Cells) (hc : r.cells = some cs) (
     · cases hr; exact ⟨_, rfl⟩
     · cases hr
   · cases hr; exact ⟨cs, hc⟩
+
+/-- no reallocation needed (storage exists, `size ≤ _capacity`): `reserve(size)` does nothing, in the translation and in the model -/
+theorem reserve_noop (M : Mem) (A : Arr) (r : RArr) (h : Rep M A r) (size fuel : Nat) (hb : A.begin.isSome = true)
+    (hs : size ≤ A.cap) : SeqArr.reserve fuel M A size = some (M, A) ∧ Raw.reserve r size = some r := by
+  obtain ⟨hcap, hrep⟩ := h
+  have hcs : r.cells.isNone = false := by
+    cases hc : r.cells with
+    | none => rw [hc] at hrep; rw [hrep.1] at hb; cases hb
+    | some cs => rfl
+  have hbn : A.begin.isNone = false := by cases hA : A.begin <;> simp_all
+  constructor
+  · unfold SeqArr.reserve
+    have : needGrow A size = false := by simp [needGrow, hbn]; omega
+    simp [this]
+  · unfold Raw.reserve
+    have : ¬ (size > r.cap ∨ (r.cells.isNone = true ∧ size > 0)) := by simp [hcs]; omega
+    simp only [this, if_false]
 
 end Nstd.Seq.AM
